@@ -102,3 +102,11 @@ Print Assumptions C02_ios_acl_same_verdicts.
 Example C02_sw_equiv_distinguishes :
   fm_verdict (fun _ => true) [P 1; D 2] <> fm_verdict (fun _ => true) [D 2; P 1].
 Proof. cbn. discriminate. Qed.
+
+(* the executable oracle that judges every generated case (Cisco.IosAcl.equiv) accepts
+   whatever sw_equiv relates: the check cannot raise an alarm on a script covered by C02_ios_acl_equiv *)
+From NA Require Import Cisco.IosAclOracle.
+Theorem C02_oracle_accepts_equivalent_acls :
+  forall a b, sw_equiv (rules a) (rules b) -> equiv a b = true.
+Proof. exact sw_equiv_oracle. Qed.
+Print Assumptions C02_oracle_accepts_equivalent_acls.
